@@ -37,8 +37,20 @@ def _replay_one(rec):
 
 
 def _complete_rows(k):
+    """History: ask for the complete accessor, trim the returned array in place (as arc removal does), ask again.
+    Both answers must be the complete graph."""
     r = impl.call(dsw.get_complete_accessor, k)
-    return impl.acc_list(r["value"]) if r["out"] == "ok" else r
+    if r["out"] != "ok":
+        return r
+    first = impl.acc_list(r["value"])
+    try:
+        r["value"][0, 0] = -1
+        r["value"][-1, :] = -1
+    except Exception:  # noqa
+        pass
+    r2 = impl.call(dsw.get_complete_accessor, k)
+    second = impl.acc_list(r2["value"]) if r2["out"] == "ok" else r2
+    return first if first == second else {"first": first[:2], "second_after_in_place_trim": second[:2] if isinstance(second, list) else second}
 
 
 def _accessors(seed, n):
